@@ -36,6 +36,25 @@ func stripNot(v ssa.Value, pos bool) (ssa.Value, bool) {
 			pos = !pos
 			continue
 		}
+		// x == true, x == false, x != true, x != false
+		if b, ok := v.(*ssa.BinOp); ok && (b.Op == token.EQL || b.Op == token.NEQ) {
+			var other ssa.Value
+			var cv bool
+			found := false
+			if c, ok := b.Y.(*ssa.Const); ok && c.Value != nil && c.Value.Kind() == constant.Bool {
+				other, cv, found = b.X, constant.BoolVal(c.Value), true
+			} else if c, ok := b.X.(*ssa.Const); ok && c.Value != nil && c.Value.Kind() == constant.Bool {
+				other, cv, found = b.Y, constant.BoolVal(c.Value), true
+			}
+			if found {
+				same := (b.Op == token.EQL) == cv // asserts other when the comparison is true
+				v = other
+				if !same {
+					pos = !pos
+				}
+				continue
+			}
+		}
 		return v, pos
 	}
 }
